@@ -20,10 +20,13 @@ import (
 	"net"
 	"os"
 	"strconv"
+	"strings"
+	"sync"
 	"testing"
 	"time"
 
 	"github.com/miekg/dns"
+	"github.com/semihalev/sdns/internal/authority"
 	"github.com/semihalev/sdns/middleware"
 )
 
@@ -94,61 +97,263 @@ func TestVerifC13ZoneAdmit(t *testing.T) {
 		for _, zoneEmpty := range []bool{false, true} {
 			for _, bestEffort := range []bool{false, true} {
 				for ctxState := 0; ctxState < 4; ctxState++ {
-					for _, c := range causes {
-						st := &vC13ZoneStore{}
-						res := &Resolver{}
-						var ms middleware.Store = st
-						res.store.Store(&ms)
-						ctx := context.Background()
-						cancel := func() {}
-						if bestEffort {
-							ctx = middleware.WithBestEffortRecursionWork(ctx)
+					for budget := 0; budget < 4; budget++ {
+						for _, c := range causes {
+							st := &vC13ZoneStore{}
+							res := &Resolver{}
+							var ms middleware.Store = st
+							res.store.Store(&ms)
+							ctx := context.Background()
+							cancel := func() {}
+							if bestEffort {
+								ctx = middleware.WithBestEffortRecursionWork(ctx)
+							}
+							// the request tree's work ledger: none / enforce mode, budget crossed (an enforcement
+							// rejection is latched) / shadow mode, crossed (nothing latched) / enforce mode, within budget
+							budgetHow := []string{"no ledger", "over budget (enforce)", "crossed in shadow mode", "within budget (enforce)"}[budget]
+							if budget > 0 {
+								mode := middleware.RecursionWorkEnforce
+								if budget == 2 {
+									mode = middleware.RecursionWorkShadow
+								}
+								ledger := middleware.NewRecursionWorkLedger(middleware.RecursionWorkPolicy{Mode: mode, MaxOutboundQueries: 1, MaxInternalQueries: 1, MaxSignatureChecks: 1})
+								kind := []middleware.RecursionWorkKind{middleware.RecursionWorkOutboundQuery, middleware.RecursionWorkInternalQuery, middleware.RecursionWorkSignature}[r.Intn(3)]
+								_ = ledger.Debit(kind)
+								if budget != 3 {
+									_ = ledger.Debit(kind)
+								}
+								ctx = middleware.WithRecursionWork(ctx, ledger)
+							}
+							overBudget := middleware.RecursionWorkEnforcementError(ctx) != nil
+							how := "live"
+							switch ctxState {
+							case 1:
+								c2, cf := context.WithCancel(ctx)
+								cf()
+								ctx = c2
+								how = "canceled"
+							case 2:
+								c2, cf := context.WithDeadline(ctx, time.Unix(1, 0))
+								ctx, cancel = c2, cf
+								how = "deadline exceeded"
+							case 3:
+								ctx = vC13DeadlineCtx{Context: ctx, at: time.Unix(1, 0)}
+								how = "deadline reached, Err not yet published"
+							}
+							zone := zones[r.Intn(len(zones))]
+							if zoneEmpty {
+								zone = ""
+							}
+							qclass := uint16([]int{1, 3}[r.Intn(2)])
+							res.recordResolutionZoneFailure(ctx, dns.Question{Name: "www." + zone, Qtype: dns.TypeA, Qclass: qclass}, zone, c.err)
+							cancel()
+							obs := len(st.recorded) == 1
+							goFail := ""
+							if len(st.recorded) > 1 || len(st.cleared) != 0 {
+								goFail = fmt.Sprintf("unexpected store calls: recorded=%v cleared=%v", st.recorded, st.cleared)
+							}
+							if obs && st.recorded[0] != fmt.Sprintf("%s/%d", zone, qclass) {
+								goFail = fmt.Sprintf("recorded %q for zone %q class %d", st.recorded[0], zone, qclass)
+							}
+							k := "zone-admit-shared"
+							if overBudget != (budget == 1) {
+								goFail = fmt.Sprintf("ledger state %q but RecursionWorkEnforcementError != nil is %v", budgetHow, overBudget)
+							}
+							if zoneEmpty || bestEffort || ctxState != 0 || budget == 1 || (c.coq != "CNone" && c.coq != "CNetwork") {
+								k = "zone-admit-request-local"
+							}
+							b, _ := json.Marshal(map[string]any{
+								"k":          k,
+								"coq":        fmt.Sprintf("CaseZoneAdmit %v %v %v %v %s %v", zoneEmpty, bestEffort, ctxState != 0, budget == 1, c.coq, obs),
+								"go_fail":    goFail,
+								"nontrivial": true,
+								"desc":       map[string]any{"zone": zone, "best_effort": bestEffort, "ctx": how, "work_ledger": budgetHow, "cause": c.name, "recorded": obs},
+							})
+							f.Write(append(b, '\n'))
 						}
-						how := "live"
-						switch ctxState {
-						case 1:
-							c2, cf := context.WithCancel(ctx)
-							cf()
-							ctx = c2
-							how = "canceled"
-						case 2:
-							c2, cf := context.WithDeadline(ctx, time.Unix(1, 0))
-							ctx, cancel = c2, cf
-							how = "deadline exceeded"
-						case 3:
-							ctx = vC13DeadlineCtx{Context: ctx, at: time.Unix(1, 0)}
-							how = "deadline reached, Err not yet published"
-						}
-						zone := zones[r.Intn(len(zones))]
-						if zoneEmpty {
-							zone = ""
-						}
-						qclass := uint16([]int{1, 3}[r.Intn(2)])
-						res.recordResolutionZoneFailure(ctx, dns.Question{Name: "www." + zone, Qtype: dns.TypeA, Qclass: qclass}, zone, c.err)
-						cancel()
-						obs := len(st.recorded) == 1
-						goFail := ""
-						if len(st.recorded) > 1 || len(st.cleared) != 0 {
-							goFail = fmt.Sprintf("unexpected store calls: recorded=%v cleared=%v", st.recorded, st.cleared)
-						}
-						if obs && st.recorded[0] != fmt.Sprintf("%s/%d", zone, qclass) {
-							goFail = fmt.Sprintf("recorded %q for zone %q class %d", st.recorded[0], zone, qclass)
-						}
-						k := "zone-admit-shared"
-						if zoneEmpty || bestEffort || ctxState != 0 || (c.coq != "CNone" && c.coq != "CNetwork") {
-							k = "zone-admit-request-local"
-						}
-						b, _ := json.Marshal(map[string]any{
-							"k":          k,
-							"coq":        fmt.Sprintf("CaseZoneAdmit %v %v %v %s %v", zoneEmpty, bestEffort, ctxState != 0, c.coq, obs),
-							"go_fail":    goFail,
-							"nontrivial": true,
-							"desc":       map[string]any{"zone": zone, "best_effort": bestEffort, "ctx": how, "cause": c.name, "recorded": obs},
-						})
-						f.Write(append(b, '\n'))
 					}
 				}
 			}
 		}
+	}
+	vC13Glueless(f, r, reps)
+}
+
+// ---- glue-less delegations: Resolver.processDelegation -> lookupV4Nss ----------------------
+//
+// A referral to child.example. naming 1..4 nameserver hosts without glue.  The address lookup
+// of each host goes through the installed Queryer, scripted per host: no address (NXDOMAIN /
+// empty NOERROR / an ordinary lookup error) or a request-local cause (the request tree's retry
+// guard rejected the tuple, work budget, recursion depth, cancellation, deadline).  A zone
+// failure for the child zone may be filed only when EVERY host was looked up and simply had no
+// address; as soon as one host could not be looked up for a cause local to this request the
+// delegation must end in a request-local error and nothing shared.  Observed: the order in which
+// the hosts were looked up, zone failures filed, the class of the returned error and whether
+// middleware.IsRequestLocalResolutionError recognises it.
+const (
+	vC13HostNXDomain = iota
+	vC13HostLookupError
+	vC13HostAttemptLimit
+	vC13HostWorkLimit
+	vC13HostMaxRecursion
+	vC13HostCanceled
+	vC13HostDeadline
+	vC13HostEmptyNoError
+)
+
+var vC13HostNames = []string{"NXDOMAIN", "lookup error", "attempt limit (retry guard)", "work limit", "max recursion", "canceled", "deadline exceeded", "empty NOERROR"}
+
+type vC13HostQueryer struct {
+	mu     sync.Mutex
+	behave map[string]int
+	order  []string
+}
+
+func (q *vC13HostQueryer) Query(ctx context.Context, req *dns.Msg) (*dns.Msg, error) {
+	name := strings.ToLower(req.Question[0].Name)
+	q.mu.Lock()
+	q.order = append(q.order, name)
+	b := q.behave[name]
+	q.mu.Unlock()
+	resp := new(dns.Msg)
+	resp.SetReply(req)
+	resp.Authoritative = true
+	switch b {
+	case vC13HostNXDomain:
+		resp.Rcode = dns.RcodeNameError
+		return resp, nil
+	case vC13HostEmptyNoError:
+		return resp, nil
+	case vC13HostLookupError:
+		return nil, &net.OpError{Op: "read", Net: "udp", Err: os.ErrDeadlineExceeded}
+	case vC13HostAttemptLimit:
+		return nil, &middleware.ResolutionAttemptLimitError{Question: req.Question[0], Endpoint: "203.0.113.53:53", Transport: "udp"}
+	case vC13HostWorkLimit:
+		return nil, fmt.Errorf("debit: %w", middleware.ErrRecursionWorkLimit)
+	case vC13HostMaxRecursion:
+		return nil, fmt.Errorf("depth: %w", middleware.ErrMaxRecursion)
+	case vC13HostCanceled:
+		return nil, fmt.Errorf("exchange: %w", context.Canceled)
+	default:
+		return nil, fmt.Errorf("lookup: %w", context.DeadlineExceeded)
+	}
+}
+
+func vC13Glueless(f *os.File, r *rand.Rand, reps int) {
+	run := func(codes []int, overBudget bool, kind string) {
+		child := "child.example."
+		q := &vC13HostQueryer{behave: map[string]int{}}
+		resp := new(dns.Msg)
+		req := new(dns.Msg)
+		req.SetQuestion("www."+child, dns.TypeA)
+		resp.SetReply(req)
+		var hosts []string
+		for i, c := range codes {
+			h := fmt.Sprintf("ns%d.%s", i, []string{child, "elsewhere.test.", "Other.Example."}[(i+len(codes))%3])
+			hosts = append(hosts, h)
+			q.behave[strings.ToLower(h)] = c
+			resp.Ns = append(resp.Ns, &dns.NS{Hdr: dns.RR_Header{Name: child, Rrtype: dns.TypeNS, Class: dns.ClassINET, Ttl: 3600}, Ns: h})
+		}
+		parent := &authority.Servers{Zone: "example."}
+		res := vC13LabResolver(parent)
+		var mq middleware.Queryer = q
+		res.queryer.Store(&mq)
+		st := &vC13ZoneStore{}
+		var ms middleware.Store = st
+		res.store.Store(&ms)
+		ctx := context.Background()
+		if overBudget {
+			ledger := middleware.NewRecursionWorkLedger(middleware.RecursionWorkPolicy{Mode: middleware.RecursionWorkEnforce, MaxOutboundQueries: 1, MaxInternalQueries: 1, MaxSignatureChecks: 1})
+			_ = ledger.Debit(middleware.RecursionWorkSignature)
+			_ = ledger.Debit(middleware.RecursionWorkSignature)
+			ctx = middleware.WithRecursionWork(ctx, ledger)
+		}
+		info := res.extractDelegationInfo(resp)
+		rs := &resolveState{req: req, servers: parent, depth: 5, level: 1}
+		_, err := res.processDelegation(ctx, rs, resp, info, false)
+		// hosts in the order they were looked up, the ones never reached last
+		seen := map[string]bool{}
+		var ordered []int
+		var orderedNames []string
+		for _, n := range q.order {
+			if !seen[n] {
+				seen[n] = true
+				ordered = append(ordered, q.behave[n])
+				orderedNames = append(orderedNames, n+"="+vC13HostNames[q.behave[n]])
+			}
+		}
+		reached := len(ordered)
+		for _, h := range hosts {
+			if !seen[strings.ToLower(h)] {
+				ordered = append(ordered, q.behave[strings.ToLower(h)])
+				orderedNames = append(orderedNames, strings.ToLower(h)+"="+vC13HostNames[q.behave[strings.ToLower(h)]]+" (not reached)")
+			}
+		}
+		class := 9
+		switch {
+		case err == nil:
+			class = 0
+		case errors.Is(err, errNoReachableAuth):
+			class = 1
+		case errors.Is(err, middleware.ErrResolutionAttemptLimit):
+			class = 2
+		case errors.Is(err, middleware.ErrRecursionWorkLimit):
+			class = 3
+		case errors.Is(err, middleware.ErrMaxRecursion):
+			class = 4
+		case errors.Is(err, context.Canceled):
+			class = 5
+		case errors.Is(err, context.DeadlineExceeded):
+			class = 6
+		}
+		local := err != nil && middleware.IsRequestLocalResolutionError(err)
+		goFail := ""
+		for _, z := range st.recorded {
+			if z != fmt.Sprintf("%s/%d", child, dns.ClassINET) {
+				goFail = fmt.Sprintf("zone failure filed for %q, the delegation is %q", z, child)
+			}
+		}
+		var cs []string
+		for _, c := range ordered {
+			cs = append(cs, strconv.Itoa(c))
+		}
+		errText := ""
+		if err != nil {
+			errText = err.Error()
+		}
+		b, _ := json.Marshal(map[string]any{
+			"k":          kind,
+			"coq":        fmt.Sprintf("CaseGlueless [%s]%%N %d %v %d %d %v", strings.Join(cs, ";"), reached, overBudget, len(st.recorded), class, local),
+			"go_fail":    goFail,
+			"nontrivial": len(codes) > 1,
+			"desc":       map[string]any{"delegation": child, "ns_hosts_in_lookup_order": orderedNames, "request_tree_over_budget": overBudget, "zone_failures_filed": st.recorded, "error": errText, "request_local_error": local},
+		})
+		f.Write(append(b, '\n'))
+	}
+	// every combination of one and two hosts, then random larger sets
+	for a := 0; a < 8; a++ {
+		run([]int{a}, false, "glueless-1")
+		for b := 0; b < 8; b++ {
+			run([]int{a, b}, false, "glueless-2")
+		}
+	}
+	noAddr := []int{vC13HostNXDomain, vC13HostLookupError, vC13HostEmptyNoError}
+	for i := 0; i < 120*reps; i++ {
+		k := 2 + r.Intn(3)
+		codes := make([]int, k)
+		for j := range codes {
+			codes[j] = noAddr[r.Intn(len(noAddr))]
+		}
+		switch i % 4 {
+		case 1: // one host rejected by the retry guard among address-less ones
+			codes[r.Intn(k)] = vC13HostAttemptLimit
+		case 2: // any mix
+			for j := range codes {
+				codes[j] = r.Intn(8)
+			}
+		case 3: // one request-local cause of any kind
+			codes[r.Intn(k)] = 2 + r.Intn(5)
+		}
+		run(codes, i%8 == 0, "glueless-n")
 	}
 }
